@@ -22,7 +22,7 @@ FNV = {
     "fnv_1a_32": (0x811C9DC5, 0x01000193, 2**32),
 }
 ALLOWED_CALLS = {"md5", "sha256", "digest", "unpack", "ord", "list", "tuple", "map", "range", "isinstance", "encode", "append", "<slot>", "len", "enumerate", "zip",
-                 "fnv_1a", "default_md5", "default_sha256", "wraps", "format", "hex", "int", "bytes", "str", "min", "max"}
+                 "fnv_1a", "default_md5", "default_sha256", "wraps", "format", "hex", "int", "bytes", "str", "min", "max", "isascii", "isinstance", "fnv_1a_32"}
 
 
 def _walker(prog):
@@ -216,6 +216,11 @@ def check(prog, rep, tier):
                     if r is None or r[0] not in ("newb", "new"):
                         bad = (e, "writes non-local state")
         extra = {c for c in calls if c not in ALLOWED_CALLS}
+        from ..common import iterator_reuse
+        for p in ps:
+            for (e_, v_) in iterator_reuse(p):
+                bad = bad or (e_, f"consumes the one-shot iterator {nshow(v_)} once per round although it was created before the loop: after the first round it is "
+                                  "exhausted, so every later element is computed from an empty key")
         if bad:
             rep.bad("C18.pure", name, bad[1], f"{name} {bad[1]}: repeated calls can return different values", bad[0].where())
         elif extra:
@@ -555,6 +560,8 @@ MUTANTS = [
     Mutant("int decorator: hex spelled format(tmp, 'x') (same meaning)", _H, replace_expr(None, "hash_with_depth_int", "f'{tmp:x}'", "format(tmp, 'x')"), expect="silent"),
     Mutant("int decorator: round 0 seeded with 1", _H, replace_expr(None, "hash_with_depth_int", "func(key, 0)", "func(key, 1)"), rule="C18."),
     Mutant("int decorator: later rounds seeded with idx - 1", _H, replace_expr(None, "hash_with_depth_int", "func(f'{tmp:x}', idx)", "func(f'{tmp:x}', idx - 1)"), rule="C18.int-chain"),
+    Mutant("default_fnv_1a hands one map() iterator to every round", _H,
+           replace_stmt(None, "default_fnv_1a", "res = []", "units = map(ord, key) if isinstance(key, str) else key\nreturn [fnv_1a(units, idx) for idx in range(depth)]"), rule="C18.pure"),
     Mutant("default_fnv_1a seeds with idx + depth", _H, replace_expr(None, "default_fnv_1a", "fnv_1a(key, idx)", "fnv_1a(key, idx + depth)"), rule="C18."),
     Mutant("fnv_1a drops the mask in the loop", _H, del_stmt(None, "fnv_1a", "hval &= UINT64_T_MAX"), rule="C18."),
     Mutant("fnv_1a multiplies before xor", _H, replace_stmt(None, "fnv_1a", "hval ^= t_str", "hval *= fnv_64_prime\nhval ^= t_str\nhval //= fnv_64_prime\nhval *= fnv_64_prime"), rule="C18.fnv"),
